@@ -2,10 +2,17 @@
 EXTENDS EquivCache, TraceIO, KnownFindings
 VARIABLE l
 Init == l = 1
-Expected(ev, q) == LET E == {<<ev.edges[i][1] + 1, ev.edges[i][2] + 1>> : i \in DOMAIN ev.edges} IN
-                   IF q[1] = "am" THEN AnswerAM(E, ev.n, q[2] + 1, q[3] + 1) ELSE AnswerVar(E, ev.n, q[2] + 1, q[3] + 1)
+\* the graph at item i of the history: the initial edges, then every "cut" / "join" before i
+Norm(a, b) == IF a <= b THEN <<a + 1, b + 1>> ELSE <<b + 1, a + 1>>
+RECURSIVE EdgesAt(_, _)
+EdgesAt(ev, i) == IF i = 1 THEN {Norm(ev.edges[k][1], ev.edges[k][2]) : k \in DOMAIN ev.edges}
+                  ELSE LET q == ev.queries[i - 1] E == EdgesAt(ev, i - 1) IN
+                       IF q[1] = "cut" THEN E \ {Norm(q[2], q[3])} ELSE IF q[1] = "join" THEN E \cup {Norm(q[2], q[3])} ELSE E
+Expected(ev, i) == LET q == ev.queries[i] E == EdgesAt(ev, i) IN
+                   IF q[1] \in {"cut", "join"} THEN TRUE        \* the edit itself succeeds
+                   ELSE IF q[1] = "am" THEN AnswerAM(E, ev.n, q[2] + 1, q[3] + 1) ELSE AnswerVar(E, ev.n, q[2] + 1, q[3] + 1)
 Problems(ev) ==
-    (IF \A i \in DOMAIN ev.queries : ev.answers[i] = Expected(ev, ev.queries[i]) THEN {} ELSE {"equivalence query disagrees with the connection graph"})
+    (IF \A i \in DOMAIN ev.queries : ev.answers[i] = Expected(ev, i) THEN {} ELSE {"equivalence query disagrees with the connection graph"})
     \cup (IF ev.kind = "collision" /\ ~ev.placed THEN {"harness: could not place the variables at the chosen addresses"} ELSE {})
     \cup (IF ev.kind = "collision" /\ ev.fam = "cantor" /\ ~Collide(ev.limbs) THEN {"harness: the address quadruple does not collide under Key64"} ELSE {})
 Next == /\ l <= Len(TraceLog) /\ l' = l + 1
